@@ -1,2 +1,6 @@
 import TvUring.Model.Barrier
 import TvUring.Model.BarrierSpec
+import TvUring.Proofs.Barrier
+import TvUring.Proofs.BarrierSuspend
+import TvUring.Props.C20
+import TvUring.Audit.C20
